@@ -1,7 +1,7 @@
 (* C02 -- lossless mode reproduces every sample exactly.
    Property theorems only: statement + exact + Print Assumptions. *)
 From Coq Require Import List ZArith.
-From LJT Require Import model.Huff model.Lossless proofs.LosslessProofs proofs.LosslessScanProofs proofs.LosslessBitsProofs gen.GenLossless proofs.LosslessGenProofs.
+From LJT Require Import model.Huff model.Lossless proofs.LosslessProofs proofs.LosslessScanProofs proofs.LosslessBitsProofs proofs.LosslessHuffProofs gen.GenLossless proofs.LosslessGenProofs.
 Import ListNotations.
 Local Open Scope Z_scope.
 
@@ -90,6 +90,23 @@ Theorem C02_interleaved_bitstream :
 Proof. exact decode_encode_mcu_row. Qed.
 Print Assumptions C02_interleaved_bitstream.
 
+(* ... and with the real Huffman machinery (model/Huff.v: jpeg_make_c_derived_tbl,
+   jpeg_make_d_derived_tbl, the HUFF_DECODE look-ahead path; inverse theorem of
+   C19): any tables accepted by both builders in lossless mode in which each of
+   the categories 0..16 has a code *)
+Theorem C02_real_huffman_bitstream :
+  forall (tabs : Z -> list Z * list Z) (cts : Z -> ctbl) (dts : Z -> dtbl),
+  (forall t, length (fst (tabs t)) = 17%nat) ->
+  (forall t, make_c_derived (fst (tabs t)) (snd (tabs t)) 16 = Some (cts t)) ->
+  (forall t, make_d_derived (fst (tabs t)) (snd (tabs t)) true 16 = Some (dts t)) ->
+  (forall t s, 0 <= s <= 16 -> encode_sym (cts t) s <> None) ->
+  forall tbls w rows rest,
+  length rows = length tbls -> Forall (fun r => length r = w) rows ->
+  decode_mcu_row (huff_dec dts) tbls w (encode_mcu_row (huff_code cts) tbls w rows ++ rest)
+  = Some (map (map canon_diff) rows, rest).
+Proof. exact real_huffman_mcu_row. Qed.
+Print Assumptions C02_real_huffman_bitstream.
+
 (* tie: the predictor macros, the wiring of the fourteen [un]differencing
    functions, the first-row switch, the "& 0xFFFF" masks and the constants of the
    category coder, as translated from the CURRENT sources (gen/GenLossless.v),
@@ -136,6 +153,11 @@ Example C02_ex_category16 : encode_diff 32768 = (16, 32767) /\ encode_diff (-327
 Proof. exact category16_example. Qed.
 Example C02_ex_pt : codec_component 2 2 7 12 3 [[4095; 1]; [8; 2049]] = Some [[4088; 0]; [8; 2048]].
 Proof. exact pt_example. Qed.
+Example C02_ex_real_table :
+  length ex_bits = 17%nat /\
+  (exists ct dt, make_c_derived ex_bits ex_vals 16 = Some ct /\ make_d_derived ex_bits ex_vals true 16 = Some dt /\
+     forallb (fun s => match encode_sym ct s with Some _ => true | None => false end) ex_vals = true).
+Proof. exact ex_table_ok. Qed.
 Example C02_ex_prefix_code : forall tbl s rest, 0 <= s <= 16 ->
   fixed_dec tbl (fixed_code tbl s ++ rest) = Some (s, rest).
 Proof. exact fixed_code_ok. Qed.
